@@ -182,6 +182,33 @@ pub enum PrintWhat {
     Span(u32, u32),
     /// print mem : n
     DsSpan(u32),
+    /// a print mem statement of the source whose constants may be written `offset <data label>`:
+    /// form "range" (x -> y), "span" (x : y) or "dsspan" (: x)
+    Sym { form: &'static str, x: Addr, y: Option<Addr> },
+}
+
+#[derive(Clone, Debug, PartialEq)]
+pub enum Addr {
+    Num(u32),
+    Off(String),
+}
+
+impl Addr {
+    fn put(&self, v: &mut Value, field: &str) {
+        match self {
+            Addr::Num(n) => v[field] = json!(n),
+            Addr::Off(name) => {
+                v[field] = json!(0);
+                v[format!("{}sym", field)] = json!(name);
+            }
+        }
+    }
+    fn src(&self, sp: &Spelling) -> String {
+        match self {
+            Addr::Num(n) => sp.num(*n as i32),
+            Addr::Off(name) => format!("{}{}{}", sp.kw("offset"), sp.sp(), name),
+        }
+    }
 }
 
 impl PrintWhat {
@@ -192,6 +219,13 @@ impl PrintWhat {
             PrintWhat::Range(a, b) => json!({"k":"range","a":a,"b":b}),
             PrintWhat::Span(a, n) => json!({"k":"span","a":a,"n":n}),
             PrintWhat::DsSpan(n) => json!({"k":"dsspan","n":n}),
+            PrintWhat::Sym { form, x, y } => {
+                let mut v = json!({"k": form});
+                let (fx, fy) = match *form { "range" => ("a", "b"), "span" => ("a", "n"), _ => ("n", "") };
+                x.put(&mut v, fx);
+                if let Some(y) = y { y.put(&mut v, fy); }
+                v
+            }
         }
     }
     pub fn to_src(&self, sp: &Spelling) -> String {
@@ -202,6 +236,11 @@ impl PrintWhat {
             PrintWhat::Range(a, b) => format!("{}{}{}{}{}{}->{}{}", sp.kw("print"), s, sp.kw("mem"), s, sp.num(*a as i32), s, s, sp.num(*b as i32)),
             PrintWhat::Span(a, n) => format!("{}{}{}{}{}{}:{}{}", sp.kw("print"), s, sp.kw("mem"), s, sp.num(*a as i32), s, s, sp.num(*n as i32)),
             PrintWhat::DsSpan(n) => format!("{}{}{}{}:{}{}", sp.kw("print"), s, sp.kw("mem"), s, s, sp.num(*n as i32)),
+            PrintWhat::Sym { form, x, y } => match *form {
+                "range" => format!("{}{}{}{}{}{}->{}{}", sp.kw("print"), s, sp.kw("mem"), s, x.src(sp), s, s, y.as_ref().unwrap().src(sp)),
+                "span" => format!("{}{}{}{}{}{}:{}{}", sp.kw("print"), s, sp.kw("mem"), s, x.src(sp), s, s, y.as_ref().unwrap().src(sp)),
+                _ => format!("{}{}{}{}:{}{}", sp.kw("print"), s, sp.kw("mem"), s, s, x.src(sp)),
+            },
         }
     }
 }
